@@ -290,6 +290,57 @@ class Site:
     return '<tpl %s line %d %s>' % (self.fi.site, self.call.lineno, self.api)
 
 
+def _const_str(e):
+  """value of an expression built from constants only (str + / % / f-string)"""
+  if any(not isinstance(x, (ast.Constant, ast.BinOp, ast.Add, ast.Mod, ast.JoinedStr,
+                            ast.FormattedValue, ast.Tuple, ast.Load, ast.expr_context))
+         for x in ast.walk(e)):
+    return None
+  try:
+    v = eval(compile(ast.fix_missing_locations(ast.Expression(body=e)), '<const>', 'eval'),
+             {'__builtins__': {}}, {})
+  except Exception:
+    return None
+  return v if isinstance(v, str) else None
+
+
+def _star_kwargs(fi, e, at):
+  """placeholders passed as **mapping: a dict display with constant keys, or a
+  dict comprehension over a literal tuple of constants, directly or through a
+  local that names it"""
+  import copy
+  if isinstance(e, ast.Name):
+    ds = rdefs(fi.node).reaching(at, e.id)
+    if not ds or len(ds) != 1 or not isinstance(ds[0], ast.AST):
+      return {}
+    e = ds[0]
+  out = {}
+  if isinstance(e, ast.Dict):
+    for k, v in zip(e.keys, e.values):
+      if isinstance(k, ast.Constant) and isinstance(k.value, str):
+        out[k.value] = v
+    return out
+  if isinstance(e, ast.DictComp) and len(e.generators) == 1 and not e.generators[0].ifs \
+      and isinstance(e.generators[0].target, ast.Name) and isinstance(
+          e.generators[0].iter, (ast.Tuple, ast.List)) and all(
+              isinstance(x, ast.Constant) for x in e.generators[0].iter.elts):
+    from sa import inline
+    var = e.generators[0].target.id
+    for c in e.generators[0].iter.elts:
+      class R(ast.NodeTransformer):
+        def visit_Name(self, x):
+          if x.id == var and isinstance(x.ctx, ast.Load):
+            return ast.copy_location(ast.Constant(c.value), x)
+          return x
+      key = _const_str(R().visit(copy.deepcopy(e.key)))
+      if key is None:
+        return {}
+      val = inline._Idioms().visit(R().visit(copy.deepcopy(e.value)))
+      ast.fix_missing_locations(ast.copy_location(val, e))
+      out[key] = val
+  return out
+
+
 def find_sites(model, rels=None):
   """All template sites in the given modules (default: whole package)."""
   sites = []
@@ -311,6 +362,9 @@ def find_sites(model, rels=None):
           evaluator = StrEval(model, fi)
         texts = evaluator.ev(n.args[0], n)
         kwargs = {k.arg: k.value for k in n.keywords if k.arg}
+        for k in n.keywords:
+          if k.arg is None:
+            kwargs.update(_star_kwargs(fi, k.value, n))
         sites.append(Site(fi, n, api, texts, kwargs,
                           unresolved=None if texts is not None else
                           ast.unparse(n.args[0])))
